@@ -115,6 +115,7 @@ type c13bPlan struct {
 	labels   []string
 	features map[string]bool
 	multiDay bool // revolut2: some date carries assertions in several currencies
+	split    []string // revolut2: the same statement cut at a day boundary into two complete statement files
 }
 
 func c13bCents(v int64) *big.Rat { return new(big.Rat).SetFrac64(v, 100) }
@@ -344,10 +345,15 @@ func c13bPlanRevolut2(c C13BCase) *c13bPlan {
 	last := map[key]int64{}
 	var order []key
 	perDay := map[ref.Day]map[string]bool{}
+	const header = "Type,Product,Started Date,Completed Date,Description,Amount,Fee,Currency,State,Balance\n"
+	var rowDays []ref.Day
+	var rowStart []int // offset of each row's line in sb
 	for i, r := range c.Rows {
 		if i > 0 {
 			day += ref.Day(r.Gap)
 		}
+		rowDays = append(rowDays, day)
+		rowStart = append(rowStart, sb.Len())
 		started := (day - ref.Day(r.F%2)).String() + " " + c13bClock(i)
 		p.text(r.T1)
 		switch r.Kind {
@@ -395,6 +401,13 @@ func c13bPlanRevolut2(c C13BCase) *c13bPlan {
 		p.label("revolut2:multi-currency-day")
 	}
 	p.stmt = sb.String()
+	// two statement files covering consecutive ranges of days (the importer takes several files)
+	for i := (len(rowDays) + 1) / 2; i < len(rowDays); i++ {
+		if i > 0 && rowDays[i] != rowDays[i-1] {
+			p.split = []string{p.stmt[:rowStart[i]], header + p.stmt[rowStart[i]:]}
+			break
+		}
+	}
 	return p
 }
 
@@ -853,6 +866,23 @@ func checkC13B(c C13BCase) (o Outcome) {
 		}
 	}
 
+	// (6) several statement files in one invocation: the same journal as the one statement they were cut from
+	if len(p.split) == 2 {
+		dir3, cleanup3 := knutio.Materialise(map[string]string{"a.csv": p.split[0], "b.csv": p.split[1]})
+		margs := append(append([]string{"import", p.cmd}, p.args...), "a.csv", "b.csv")
+		rm := knutio.Run(knutio.Opts{Dir: dir3}, margs...)
+		cleanup3()
+		o.Evals++
+		o.Labels = append(o.Labels, imp+":two-files")
+		if rm.TimedOut || rm.Signaled || rm.Panicked() {
+			return fail(V("crash", "knut %v: %s", margs, rm.Brief()))
+		}
+		if rm.Exit != 0 || rm.Stdout != T {
+			return fail(V("multi-file-differs", "knut %v (the statement cut into two files at a day boundary) exits %d and prints\n%s\n--the one-file import prints--\n%s\n--a.csv--\n%s\n--b.csv--\n%s",
+				margs, rm.Exit, clip(rm.Stdout, 1500), clip(T, 1500), clip(p.split[0], 1200), clip(p.split[1], 1200)))
+		}
+	}
+
 	// (4) the harness's own reader: per-row expectation
 	ds, err := knutio.ParsePrinted(T)
 	if err != nil {
@@ -1132,6 +1162,21 @@ func drawC13BRevolut2(t *rapid.T) C13BCase {
 		r.F = rapid.IntRange(0, 1).Draw(t, "startedEarlier")
 		return r
 	}), lo, hi).Draw(t, "rows")
+	if rapid.IntRange(0, 2).Draw(t, "twinRow") == 0 {
+		// two genuine, identical incoming payments on one day (same type, text, amount, fee, currency)
+		var ins []int
+		for i, r := range c.Rows {
+			if r.Kind == "in" {
+				ins = append(ins, i)
+			}
+		}
+		if len(ins) > 0 {
+			i := ins[rapid.IntRange(0, len(ins)-1).Draw(t, "twinOf")]
+			twin := c.Rows[i]
+			twin.Gap = 0
+			c.Rows = append(c.Rows[:i+1:i+1], append([]c13bRow{twin}, c.Rows[i+1:]...)...)
+		}
+	}
 	return c
 }
 
